@@ -871,9 +871,13 @@ def verify_directory_hash_subcommand(
 
                         if dir_content_hash:
                             found_hash_format = True
-                            _compare_and_log_directory_hashes(
+                            num_current_successful_verifications = _compare_and_log_directory_hashes(
                                 ".", root_hash_entry, dir_content_hash, dir_structure_hash
                             )
+                            # a mismatch of the root folder itself is a failed verification as well
+                            if num_current_successful_verifications == 1 and not root_only:
+                                num_failed_verifications += 1
+                                add_detected_failure_for_format(hash_format)
 
                         if not calculate_only:
                             if not found_hash_format:
